@@ -179,7 +179,16 @@ func genC19World(src *choice.Src) *World {
 		}
 		w.Class = "self:from-config-dir"
 	}
-	if src.Chance("concurrent", 1, 6) && !w.AbsInputs {
+	if src.Chance("linkedout", 1, 8) {
+		// the regenerated file is reached through links: a directory link, then a relative link with ".."
+		// (linkdir -> realdir/sub, linkdir/out.go -> ../generated/out.go); with or without a previous generation there
+		w.OutKind, w.Out = "symlink-dotdot-via-linked-dir", "linkdir/out.go"
+		if w.PreOut != nil {
+			w.PreOut.Path = w.Out
+		}
+		w.Class += "+linked-output"
+	}
+	if src.Chance("concurrent", 1, 6) && !w.AbsInputs && w.OutKind == "file" {
 		// make -j2 self-compile generate-stub: the Makefile's two targets write into the same directory
 		// at the same time; now and then a third build next to them
 		dir := filepath.Dir(w.Out)
